@@ -8,6 +8,7 @@ import (
 
 	"github.com/glebziz/fs_db"
 	"github.com/glebziz/fs_db/internal/model"
+	"github.com/glebziz/fs_db/internal/utils/vhook"
 )
 
 func (u *UseCase) Set(ctx context.Context, key string, content io.Reader) error { //nolint:funlen,cyclop // TODO fix
@@ -65,6 +66,7 @@ func (u *UseCase) Set(ctx context.Context, key string, content io.Reader) error 
 		break
 	}
 
+	vhook.AtID("store.set.content", cFile.Id)
 	if closer != nil {
 		closer.Close()
 	}
@@ -73,6 +75,7 @@ func (u *UseCase) Set(ctx context.Context, key string, content io.Reader) error 
 	if err != nil {
 		return fmt.Errorf("content file repository store: %w", err)
 	}
+	vhook.AtID("store.set.cf", cFile.Id)
 
 	err = u.fRepo.Store(ctx, file)
 	if err != nil {
